@@ -19,6 +19,10 @@ impl<'a> Assembler<'a> {
         value: <IT as BitValue>::ValueType,
         len: usize,
     ) -> Result<(), RtcmError> {
+        #[cfg(all(rtcm_rs_verif, feature = "std"))]
+        if crate::verif_hooks::on_put() {
+            return Err(RtcmError::BufferOverflow);
+        }
         if self.data.len() * 8 < self.offset + len {
             Err(RtcmError::BufferOverflow)
         } else {
